@@ -362,6 +362,53 @@ func (b *BoxVIt) Stop() {
 	}
 }
 
+// IntIt is the int protocol of the drivers.
+type IntIt interface {
+	MoveNext() bool
+	Current() int
+}
+
+// GGIt is the flattening consumer of a generator of generators (spec: GGStep in CoSource.tla): it keeps every
+// handle the outer generator has delivered and, per MoveNext, performs actions in cyclic order
+// outer, handle 1, ..., handle n until an inner iterator delivers a value or a whole cycle was unproductive.
+type GGIt[H IntIt] struct {
+	In interface {
+		MoveNext() bool
+		Current() H
+	}
+	hs  []H
+	pos int
+	cur int
+}
+
+func (g *GGIt[H]) MoveNext() bool {
+	g.cur = 0
+	for idle := 0; idle <= len(g.hs); {
+		n := len(g.hs)
+		if g.pos == 0 {
+			if g.In.MoveNext() {
+				g.hs = append(g.hs, g.In.Current())
+				g.pos, idle = 1, 0
+			} else {
+				if n > 0 {
+					g.pos = 1
+				}
+				idle++
+			}
+			continue
+		}
+		h := g.hs[g.pos-1]
+		g.pos = (g.pos + 1) % (n + 1)
+		if h.MoveNext() {
+			g.cur = h.Current()
+			return true
+		}
+		idle++
+	}
+	return false
+}
+func (g *GGIt[H]) Current() int { return g.cur }
+
 // YF is `YieldFrom(it)` of the native rendering.
 func YF(yield func(int) bool, it *NIter) {
 	for it.MoveNext() {
